@@ -1,9 +1,12 @@
 #!/usr/bin/env python3
 """Harness for C18 (partial files: an interrupted conversion or copy never reads back as data).
 
-For every route (NumPy default / z-slice layout, SEG-Y heuristic / thorough / exhaustive / strip, irregular SEG-Y, 2D, and
-an all-constant 2D 'thorough' file) the conversion is run with the output handles wrapped, so that the sequence of write
-events (handle, offset, bytes) is recorded in program order.  Crash states:
+For every route (NumPy default / z-slice layout, SEG-Y heuristic / thorough / exhaustive / strip, SEG-Y with reduce_iops=True,
+irregular SEG-Y, 2D, and an all-constant 2D 'thorough' file) the conversion is run with the output handles wrapped, so that
+the sequence of file-changing events (handle, offset, bytes) is recorded in program order: writes (at the position left by
+any seek, through any handle, append mode included), and truncates (one that extends the file is an event appending zero
+bytes; one that shortens it is an atomic event), so that a replayed prefix is the real file contents at that point.
+Crash states:
   * every prefix of the event sequence, with cuts inside each event (0, 1, every 512 bytes, len-1; denser inside the
     in-place patches: every row of the table patch and the bytes inside the value field of every row that changes);
   * the histories in which the hash patch (second handle, unbuffered) reaches the file BEFORE some of the footer arrays
@@ -26,7 +29,7 @@ from hz import *
 from coqeval import coq_eval, parse_value, zlit
 import seismic_zfp.conversion as conv_mod
 
-R = Result('one case = (route, crash state, read method + arguments); crash states = every write-event boundary, cuts inside '
+R = Result('one case = (route, crash state, read method + arguments); crash states = every boundary of a file-changing event (write / truncate through any handle), cuts inside '
            'events (every 512 bytes, +-1 around boundaries, every table row and the value bytes of changed rows inside the '
            'table patch), hash-before-footer interleavings, and truncations of the finished file; non-trivial = a state that '
            'is a proper prefix (not the complete file) on which the constructor or the call has to decide')
@@ -38,17 +41,47 @@ TORN_KEY = 'D41-torn-table-value'
 
 
 # ------------------------------------------------------------------------------------------------ recording
+class Zeros(bytes):
+    """the bytes a truncate() that EXTENDS the file appends (a file-changing event like any write)"""
+
+
+class Shrink(bytes):
+    """marker (empty) of a truncate() / re-open in 'w' mode that SHORTENS the file to the event's offset; atomic"""
+
+
 class RecFile:
-    def __init__(self, f, log, hid):
-        self._f, self._log, self._hid = f, log, hid
+    """wrapper of an output handle: EVERY operation that changes the file is logged as an event (handle, offset, bytes) at
+    the logical position it takes effect: write / writelines (after any seek, also beyond the end: the hole reads as
+    zeros), writes of a handle in append mode (always at the end), truncate (extension = appended zeros, reduction =
+    Shrink).  `size` is the logical file size shared by all the handles of the file (buffered data included)."""
+    def __init__(self, f, log, hid, size, append=False):
+        self._f, self._log, self._hid, self._size, self._append = f, log, hid, size, append
 
     @property
     def name(self):
         return self._f.name
 
+    def _event(self, off, data):
+        self._log.append((self._hid, off, data))
+        self._size['n'] = off if isinstance(data, Shrink) else max(self._size['n'], off + len(data))
+
     def write(self, data):
-        self._log.append((self._hid, self._f.tell(), bytes(data)))
+        data = bytes(data)
+        self._event(self._size['n'] if self._append else self._f.tell(), data)
         return self._f.write(data)
+
+    def writelines(self, lines):
+        for x in lines:
+            self.write(x)
+
+    def truncate(self, size=None):
+        n = self._f.tell() if size is None else int(size)
+        cur = self._size['n']
+        if n > cur:
+            self._event(cur, Zeros(n - cur))
+        elif n < cur:
+            self._event(n, Shrink())
+        return self._f.truncate(n)
 
     def seek(self, *a_):
         return self._f.seek(*a_)
@@ -63,6 +96,10 @@ class RecFile:
     def close(self):
         return self._f.close()
 
+    def __getattr__(self, attr):
+        # anything else (fileno, closed, mode, readable, read ...) does not change the file: pass it through
+        return getattr(self._f, attr)
+
     def __enter__(self):
         return self
 
@@ -72,15 +109,19 @@ class RecFile:
 
 
 def record(out_path, run):
-    """run the conversion with conversion.open wrapped; returns the write events in program order"""
+    """run the conversion with conversion.open wrapped; returns the file-changing events in program order"""
     log = []
     count = {'n': 0}
+    size = {'n': 0}
 
     def rec_open(path, mode='r', *args, **kw):
         f = builtins.open(path, mode, *args, **kw)
-        if os.path.abspath(str(path)) == os.path.abspath(out_path) and ('w' in mode or '+' in mode):
+        if os.path.abspath(str(path)) == os.path.abspath(out_path) and any(ch in mode for ch in 'wax+'):
             count['n'] += 1
-            return RecFile(f, log, count['n'])
+            if 'w' in mode and size['n'] > 0:
+                log.append((count['n'], 0, Shrink()))            # re-opening in 'w' mode empties the file
+                size['n'] = 0
+            return RecFile(f, log, count['n'], size, append='a' in mode)
         return f
     conv_mod.open = rec_open
     try:
@@ -95,10 +136,14 @@ def replay(events, upto=None, cut=None):
     buf = bytearray()
     for i, (hid, off, data) in enumerate(events):
         if upto is not None and i == upto:
-            data = data[:cut]
+            data = data[:cut]            # (a plain bytes object: a cut Shrink event has not happened yet)
         if upto is not None and i > upto:
             break
-        assert off <= len(buf), 'a write starts beyond the end of the file (hole)'
+        if isinstance(data, Shrink):
+            del buf[off:]
+            continue
+        if off > len(buf):
+            buf.extend(bytes(off - len(buf)))      # a write beyond the end: the hole reads as zeros
         buf[off:off + len(data)] = data
     return bytes(buf)
 
@@ -145,6 +190,12 @@ def routes():
         cb = rnd_cube(rng, (13, 17, 40))
         Rts.append(('numpy_default_b', '3d', lambda p, c=cb: write_numpy_sgz(p, c, bpv=4)))
         Rts.append(('numpy_88', '3d', lambda p, c=c: write_numpy_sgz(p, c, bpv=4, blockshape=(8, 8, -1))))
+    # reduce_iops=True (the MinimalInlineReader producer; the converter's own default): several inline sets, so that there
+    # are crash states with some, but not all, of the compressed blocks on disk
+    ci = rnd_cube(rng, (rng.choice((10, 13, 15)), 6, 20))
+    s5 = os.path.join(d, 'iops.sgy')
+    mk_segy(s5, ci, 20 + np.arange(ci.shape[0]), 100 + 2 * np.arange(6))
+    Rts.append(('segy_heuristic_iops', '3d', lambda p, s=s5: write_segy_sgz(s, p, bpv=4, reduce_iops=True)))
     return Rts
 
 
@@ -164,6 +215,18 @@ def canon(v):
     if isinstance(v, str) or v is None:
         return ('s', v)
     return ('repr', repr(v))
+
+
+def diff_text(got, want):
+    """what differs between two canon() values, for the violation text"""
+    if got[0] == 'nd' and want[0] == 'nd' and got[1:3] == want[1:3]:
+        g, w = (np.frombuffer(x[3], dtype=np.dtype(x[1])) for x in (got, want))
+        ne = g != w
+        return f': array {got[2]}, {int(ne.sum())} of {g.size} elements differ, {int((g[ne] == 0).sum())} of those read 0'
+    if got[0] in ('seq', 'dict') and got[0] == want[0] and len(got[1]) == len(want[1]):
+        bad = [i for i, (x, y) in enumerate(zip(got[1], want[1])) if x != y]
+        return f': {got[0]} differs at positions {bad[:8]}, first: {str(got[1][bad[0]])[:60]} instead of {str(want[1][bad[0]])[:60]}'
+    return f': {str(got)[:80]} instead of {str(want)[:80]}'
 
 
 def ops_for(final, kind):
@@ -270,7 +333,9 @@ def run_route(label, kind, conv):
     data_end = 4096 * sp.nhb + 4096 * sp.ndb
     shape = []
     for (h, o, b) in events:
-        if h == 1 and o == 0:
+        if isinstance(b, (Zeros, Shrink)):
+            shape.append('T')            # a truncate: no converter in Gen/Faults.v has one in its write order
+        elif h == 1 and o == 0:
             shape.append('H')
         elif h == 1 and o < data_end:
             shape.append('B')
@@ -297,7 +362,9 @@ def run_route(label, kind, conv):
             states[b] = desc
     for e, (h, o, b) in enumerate(events):
         dense = ()
-        if h != 1 and len(b) == 1068:
+        if isinstance(b, (Zeros, Shrink)):
+            pass
+        elif h != 1 and len(b) == 1068:
             before = replay(events, e, 0)
             rows0 = table_rows(before)
             dense = [12 * i for i in range(90)]
@@ -341,6 +408,7 @@ def run_route(label, kind, conv):
     model_jobs = []      # (state bytes, op, impl_raised)
     table_jobs = {}      # (rows, count) -> (impl open result, desc)
     n_seen = 0
+    n_state = {}
     for b, desc in states.items():
         L = len(b)
         hdr_is_final = L >= 8192 and (b[:960] + b[980:8192]) == hdr_final
@@ -372,7 +440,11 @@ def run_route(label, kind, conv):
                     if TORN_KEY not in R.known:
                         R.known.append(TORN_KEY)
                 else:
-                    R.violation('oracle', inp, 'the call returned, without raising, something that differs from what the complete file returns')
+                    R.count('oracle_violation')
+                    n_state[id(desc)] = n_state.get(id(desc), 0) + 1
+                    if n_state[id(desc)] <= 3:          # (the list is capped: leave room for the other states)
+                        R.violation('oracle', inp, 'the call returned, without raising, something that differs from what the '
+                                                   'complete file returns' + diff_text(res[1], want[(name, args)][1]))
             if hdr_is_final and name != 'get_source_data_hash':
                 model_jobs.append((L, (name, args), res[0] == 'raise', inp))
         if L >= 8192:
